@@ -389,7 +389,7 @@ def run(ctx):
         corpus = corpus_cases()
         ctx.count('corpus', len(corpus))
         run_cases(ctx, corpus, 800000)
-        n = ctx.pick(160, 900)
+        n = ctx.pick(120, 900)
         kinds = ['ok'] * 6 + ['missing-file', 'missing-field', 'missing-field', 'mixed-width']
         cases = [gen_case(rng, kinds[i % len(kinds)]) for i in range(n)]
         cases.append(gen_case(rng, 'tty'))
